@@ -23,7 +23,7 @@ CHECKS = {
  'C07': dict(technique=SEQ + '; read-only entry points executed from their MIR and compared by structural state equality', ref='6.7',
              text='All five update kinds (equal/different price, present/absent id) from an arbitrary level state and inside histories of depth D are compared with the statement (returned order, removed exactly it, others and identity fields untouched, new display for Standard/PostOnly/Iceberg, not-found/rejection change nothing); 14 read-only entry points must leave the complete level state equal.'),
  'C08': dict(technique=CONC, ref='6.8',
-             text='Level part only: at quiescence of every well-nested two-thread schedule every resting order is covered by an available ticket (so matching reaches it), aggregates equal sums, nothing handed out twice. The bare-OrderQueue programs of the quantifier are exercised only through the level operations.'),
+             text='Level programs: at quiescence of every well-nested two-thread schedule every resting order is covered by an available ticket (so matching reaches it), aggregates equal sums, nothing handed out twice. Bare OrderQueue programs (two threads x one push/pop/remove/find on an arbitrary queue state): every order handed out exactly once or still resting, every entry covered by a ticket.'),
  'C09': dict(technique='symbolic execution of the crate MIR -> SMT with a recording serializer and an abstract injective digest (the real Serialize impl, Package::new, validate, into_snapshot are executed); models replayed through the real serde_json + SHA-256 path', ref='6.9',
              text='PARTIAL (validation logic and checksum coverage): for ANY replacement of the version and of the snapshot content (price, aggregates, number/sequence of orders, every order field; <= 2 orders) under the original checksum, the restore path succeeds only if version == 1 and the content is the checksummed one; untouched packages are accepted. Byte-level faults on the JSON text (substitution, insertion, deletion, truncation) go through the serde_json parser and are NOT covered.'),
  'C10': dict(technique='bounded symbolic execution of the crate MIR -> SMT: structural round trips from an arbitrary level state, constructors fed arbitrary carried aggregates, listing under a symbolic map iteration order; models replayed on the real crate', ref='6.10',
